@@ -419,12 +419,14 @@ def State.init (init : Nat → Disp) : State :=
 
 /-! ## Running traps at a command boundary (`yash-semantics/src/trap.rs`, `trap/signal.rs`) -/
 
-/-- `semantics::Divert` as far as trap bodies are concerned (`other` = `Continue`/`Break`/`Abort`) -/
+/-- `semantics::Divert` as far as trap bodies are concerned (`other` = `Continue`/`Break`) -/
 inductive Divert where
   | ret (st : Option Int)
   | interrupt (st : Option Int)
   | exit (st : Option Int)
   | other
+  /-- `Divert::Abort` (declared LAST: the most severe; wave 3 — was lumped into `other`) -/
+  | abort (st : Option Int)
   deriving DecidableEq, Repr
 
 /-- what a trap body does: the `$?` it leaves and the `Break(divert)` it ends in, if any -/
@@ -508,12 +510,14 @@ def Divert.rank : Divert → Nat
   | .ret _ => 2
   | .interrupt _ => 3
   | .exit _ => 4
+  | .abort _ => 5
 
 def Divert.payload : Divert → Option Int
   | .other => none
   | .ret s => s
   | .interrupt s => s
   | .exit s => s
+  | .abort s => s
 
 def optLe : Option Int → Option Int → Bool
   | none, _ => true
